@@ -63,7 +63,7 @@ def plan(tier):
         "budget_s": 60 if q else 900,
         "timeout_s": 900 if q else 4000,
         "jail": True,
-        "min_nontrivial": 24 if q else 300,
+        "min_nontrivial": 10 if q else 100,
         "required_counters": ["programs", "identical"],
         "rule": "seeded CWL v1.2 CommandLineTools running a probe: class R (rich: 1..6 bound inputs of string/int/long/float/"
                 "double/boolean/enum/File/optional/array/nested array/record types with position (ints, expressions), prefix, "
@@ -118,7 +118,7 @@ def sh_run(scratch: str, line: str):
     os.makedirs(d)
     env = {"PATH": os.environ.get("PATH", "/usr/bin:/bin"), "HOME": os.environ.get("HOME", "/"), "TMPDIR": os.environ.get("TMPDIR", "/tmp")}
     try:
-        r = subprocess.run(["sh", "-c", line], cwd=d, env=env, capture_output=True, timeout=60, stdin=subprocess.DEVNULL)
+        r = subprocess.run(["sh", "-c", line], cwd=d, env=env, capture_output=True, timeout=600, stdin=subprocess.DEVNULL)
         return r.returncode, r.stdout.decode("utf-8", "replace")
     except subprocess.TimeoutExpired:
         return -1, ""
@@ -286,6 +286,9 @@ def predict(sh: Shard, case, ref, mechs: tuple) -> dict:
             seen = json.loads(out.strip().splitlines()[-1]) if rc == 0 else None
         except Exception:
             seen = None
+        if rc == -1:
+            sh.count("sh_prediction_timeouts")
+            return {"status": "prediction-timeout"}
         if seen is None:
             return {"status": "failed"}
         norm = Norm(sh.scratch)
@@ -296,6 +299,8 @@ def predict(sh: Shard, case, ref, mechs: tuple) -> dict:
 
 
 def same(pred: dict, sf: dict) -> bool:
+    if pred.get("status") == "prediction-timeout":
+        return False
     if pred.get("status") != "ok" or sf.get("status") != "ok":
         return pred.get("status") != "ok" and sf.get("status") != "ok"
     keys = (set(pred) | set(sf)) - {"rc", "stray"}
@@ -394,6 +399,7 @@ def judge(sh: Shard, run: Runner, case, d=None, ref_result=None, allow_shrink=Tr
                        "argv_seen_by_both": ref["argv"], "env": ref["env"]})
         return
     sh.count("disagreements_checked")
+    t_out0 = sh.counters.get("sh_prediction_timeouts", 0)
     mechs = explain(sh, case, ref, sf)
     witness_case, w_ref, w_sf = case, ref, sf
     exhausted = True
@@ -423,7 +429,9 @@ def judge(sh: Shard, run: Runner, case, d=None, ref_result=None, allow_shrink=Tr
            "streamflow_log": [l[-500:] for l in log if "EXECUTING command" in l or "xception" in l][-3:],
            "original_tool_digest": key}
     what = describe(w_ref, w_sf)
-    if mechs is None and case.get("class") == "W" and allow_shrink and not exhausted:
+    if mechs is None and sh.counters.get("sh_prediction_timeouts", 0) > t_out0:
+        sh.inconclusive_because("a shell prediction timed out while classifying: " + what[:300])
+    elif mechs is None and case.get("class") == "W" and allow_shrink and not exhausted:
         # an unrestricted tool may combine listed mechanisms; without a finished shrink it cannot be told
         # whether this divergence is one of them: neither held nor a new violation
         sh.count("wild_divergence_not_shrunk_in_budget")
@@ -444,6 +452,51 @@ def describe(ref, sf):
     return "tool process saw different " + "; ".join(parts)
 
 
+def fixed_corpus(probe):
+    """Hand-written class R tools (one per quantified feature), judged like generated ones in every run."""
+    F = lambda n: {"class": "File", "path": n}  # noqa: E731
+
+    def tool(inputs, job, shell=False, args=None, env=None, stdin=None, stdout=None, stderr=None, so=False, se=False):
+        t = G.base_tool(probe, inputs, shell)
+        if args:
+            t["arguments"] = args
+        if env:
+            t["requirements"]["EnvVarRequirement"] = {"envDef": env}
+        for k, v in (("stdin", stdin), ("stdout", stdout), ("stderr", stderr)):
+            if v:
+                t[k] = v
+        if so:
+            t["outputs"]["so"] = {"type": "stdout"}
+        if se:
+            t["outputs"]["se"] = {"type": "stderr"}
+        return {"kind": "tool", "class": "R", "fixed": True, "tool": t, "job": job}
+
+    return [
+        # equal positions: inputs sort by name (document order differs), arguments by index, prefix/separate
+        tool({"z": {"type": "string", "inputBinding": {"position": 1}}, "a": {"type": "string", "inputBinding": {"position": 1}},
+              "m": {"type": "string", "inputBinding": {"position": 1, "prefix": "-c"}}}, {"z": "zz", "a": "it's", "m": "a b"},
+             args=["M", {"valueFrom": "A1", "position": 1}, {"valueFrom": "A0", "position": 1}]),
+        tool({"a": {"type": "string", "inputBinding": {"prefix": "--eq=", "separate": False}},
+              "b": {"type": "string", "inputBinding": {"position": 1, "prefix": "-n"}},
+              "c": {"type": "File", "inputBinding": {"position": 2, "prefix": "-f=", "separate": False}}},
+             {"a": "`id`", "b": "$HOME x", "c": F("c'q.txt")}),
+        tool({"a": {"type": "string", "inputBinding": {"position": 1}}, "fin": {"type": "File"}, "oname": {"type": "string"}},
+             {"a": 'q"q \'s', "fin": F("fin.txt"), "oname": "r;vfnoop_4 $HOME.txt"},
+             stdin="$(inputs.fin.path)", stdout="$(inputs.oname)", stderr="e'q rr.txt", so=True, se=True),
+        tool({"a": {"type": "string", "inputBinding": {"shellQuote": False}}, "b": {"type": "string", "inputBinding": {"position": 1}}},
+             {"a": "a b  c", "b": "x  y;vfnoop_1"}, shell=True, args=[{"valueFrom": "$HOME", "shellQuote": False, "position": 2}, {"valueFrom": "$HOME", "position": 3}]),
+        tool({"a": {"type": "string[]", "inputBinding": {"position": "$(self.length)", "prefix": "-p"}}, "b": {"type": "string", "inputBinding": {"position": 1}},
+              "c": {"type": "int", "inputBinding": {"position": "$(inputs.c)"}}, "d": {"type": "boolean", "inputBinding": {"prefix": "-d"}},
+              "e": {"type": "boolean", "inputBinding": {"prefix": "-e"}}, "n": {"type": "string?", "inputBinding": {"prefix": "-n"}}},
+             {"a": ["x", "y"], "b": "new\nline", "c": 3, "d": True, "e": False, "n": None}),
+        tool({"a": {"type": {"type": "array", "items": "string", "inputBinding": {"prefix": "-i"}}, "inputBinding": {"prefix": "-p"}},
+              "r": {"type": {"type": "record", "name": "r_rec", "fields": {"fa": {"type": "string", "inputBinding": {"prefix": "-a", "position": 2}},
+                                                                         "fb": {"type": "int", "inputBinding": {"position": 1}}}}, "inputBinding": {"position": 3}},
+              "d": {"type": "double", "inputBinding": {"position": 4, "prefix": "-d=", "separate": False}}},
+             {"a": ["a b", "$HOME", "#c"], "r": {"fa": "(p) *", "fb": 7}, "d": 12345.678}, env={"VF_A": "sp ace;#h *", "VF_B": "q'q"}),
+    ]
+
+
 def class_of(sh: Shard, i: int) -> str:
     if sh.quick():
         return "T" if i % 5 in (1, 3) else "R"
@@ -459,9 +512,17 @@ def run_shard(sh: Shard) -> None:
     rng = sh.rng("tools", sh.shard)
     i = 0
     batch = sh.pick(3, 6)
-    while time.time() < deadline:
+    fixed = [c for k, c in enumerate(fixed_corpus(run.probe)) if sh.mine(k)]
+    while time.time() < deadline or fixed:
         cases, dirs = [], []
-        for _ in range(batch):
+        for c in fixed:
+            d = run.fresh_dir()
+            R.materialise(c, d)
+            cases.append(c)
+            dirs.append(d)
+            sh.count("fixed_corpus")
+        fixed = []
+        for _ in range(max(0, batch - len(cases))):
             c = G.gen_case(rng, run.probe, class_of(sh, i))
             i += 1
             d = run.fresh_dir()
